@@ -4,7 +4,7 @@
 From Coq Require Import List ZArith Bool Reals Lra Lia String Ascii.
 From T4V Require Import Base.Str Base.Scalar C06.Model
      C06.ProofsIndex C06.ProofsNumeric C06.ProofsDevelop C06.ProofsTop C06.ProofsText
-     C06.ProofsEndToEnd.
+     C06.ProofsEndToEnd C06.LinkC05.
 Import ListNotations.
 
 (* ---- index order ----------------------------------------------------------
@@ -401,6 +401,88 @@ Proof.
 Qed.
 Print Assumptions C06_lattice_end_to_end_1d_2d.
 
+(* ---- LINKED with C05: the interface of C06_lattice_end_to_end is no longer assumed -----
+   C05's model (C05/Model.v: cell_transform, pot_fill over a table of cells) and its
+   theorems (cell_transform_den, pot_fill_located = C05_cell_transform_den,
+   C05_pot_fill_located) are instantiated at T := 12 numbers or empty, P := R^3,
+   tr_empty := is_nil.  develop_state = the stateful half of develop_lattice over
+   C05's table: per element cell_transform(latkey, trnsf, cache=False) of C05's model,
+   then the new cell gets the element's fill and fill transformation.
+   Remaining hypotheses: C05's two interface laws (sense_law, key_law: C04), C05's
+   pull-back [inv] is the inverse of C06's point map on the transformations produced
+   (satisfied by p -> B(p - O) whenever the cell's fill transformation / TRCL is
+   orthogonal: C06_link_inverse_satisfiable), the lattice universe's list in [du] holds
+   the element cells, and the side conditions of C05_pot_fill_located on the developed
+   table.  Conclusion: a point p of the container whose image p' in the lattice's frame
+   lies in the unit cell translated by t = i a1 + j a2 + k a3 belongs to (is "true" in) a
+   cell returned by pot_fill that has no FILL left and carries: for the own universe, the
+   lattice cell's material; otherwise the material of the last cell of the descent that
+   locates q in universe u, where p' = t + placement(q), and the provenance
+   (key, element, descent). *)
+Theorem C06_lattice_end_to_end_linked :
+  forall (surf : Type) (teqb : list R -> list R -> bool) (tr_surf : list R -> surf -> surf)
+         (inv : list R -> @vec R -> @vec R) (sense : surf -> @vec R -> bool),
+  (forall t o p, sense (tr_surf t o) p = sense o (inv t p)) ->
+  (forall a b, teqb a b = true -> is_nil a = is_nil b /\ forall p, inv a p = inv b p) ->
+  forall (cell : @lat_cell R) (vecs : list (@vec R)) (bs : bounds) (spec : list Z),
+  lc_fill cell = FSpec bs spec -> bs <> [] -> wf_bounds bs ->
+  Z.of_nat (List.length spec) = size bs ->
+  (List.length vecs <= List.length bs)%nat -> Forall trivial_range (skipn (List.length vecs) bs) ->
+  cell_shape_ok cell ->
+  exists elems, develop_lattice_with RS (Ok vecs) cell = Ok elems /\
+  forall (fuel cf : nat) (s0 s1 s2 : M5.state (list R) surf) (latkey : Z) (lcl : M5.cell (list R))
+         (keys : list Z) (du : list (Z * list Z)) (ifd ifg : bool) (key : Z)
+         (kcl : M5.cell (list R)) (U : Z) (ks : list Z),
+  Forall (fun e => inverse_of inv (ne_trnsf e) /\ inverse_of inv (ne_filltr e)) elems ->
+  P5.Inv (list R) surf (@vec R) (@is_nil R) inv sense s0 ->
+  M5.dget latkey (M5.s_cells s0) = Some lcl ->
+  develop_state surf teqb tr_surf fuel latkey elems s0 = M5.Ok (keys, s1) ->
+  M5.dget key (M5.s_cells s1) = Some kcl -> M5.c_fill kcl = Some U ->
+  (forall k, In k keys -> In k (M5.du_get U du)) ->
+  (forall c cl, M5.dget c (M5.s_cells s1) = Some cl -> M5.c_orig cl = []) ->
+  (forall u c, In c (M5.du_get u du) -> exists cl, M5.dget c (M5.s_cells s1) = Some cl) ->
+  M5.pot_fill (list R) surf (@is_nil R) teqb tr_surf fuel cf du ifd ifg key s1 = M5.Ok (ks, s2) ->
+  forall idx, in_ranges idx bs ->
+    let t := lattice_point vecs idx in
+    let u := nth (Z.to_nat (flat_index bs idx)) spec 0%Z in
+    u <> 0%Z ->
+    forall p, let p' := S5.frame (list R) (@vec R) (@is_nil R) inv kcl p in
+    S5.Den (list R) surf (@vec R) sense s1 p (M5.c_geom kcl) true ->
+    S5.Den (list R) surf (@vec R) sense s0 (vdiff RS p' t) (M5.TRef latkey) true ->
+    (u = lc_universe cell ->
+       exists k ncl, In k ks /\ M5.dget k (M5.s_cells s2) = Some ncl /\
+                     S5.Den (list R) surf (@vec R) sense s2 p (M5.TRef k) true /\
+                     M5.c_fill ncl = None /\ M5.c_mat ncl = M5.c_mat lcl /\ M5.c_rho ncl = M5.c_rho lcl) /\
+    (u <> lc_universe cell ->
+       forall q c ch, In c (M5.du_get u du) -> p' = vadd RS (placement cell q) t ->
+       S5.Located (list R) surf (@vec R) (@is_nil R) inv sense s1 du c q ch ->
+       exists k ke ncl lfl, In k ks /\ In ke keys /\
+         M5.dget k (M5.s_cells s2) = Some ncl /\
+         S5.Den (list R) surf (@vec R) sense s2 p (M5.TRef k) true /\
+         M5.dget (last ch 0%Z) (M5.s_cells s1) = Some lfl /\
+         M5.c_fill ncl = None /\ M5.c_mat ncl = M5.c_mat lfl /\ M5.c_rho ncl = M5.c_rho lfl /\
+         M5.c_orig ncl = S5.prov (key :: ke :: ch)).
+Proof.
+  intros surf teqb tr_surf inv sense H1 H2 cell vecs bs spec.
+  exact (lattice_end_to_end_linked surf teqb tr_surf inv sense H1 H2 cell vecs bs spec).
+Qed.
+Print Assumptions C06_lattice_end_to_end_linked.
+
+(* the hypothesis [inverse_of] is satisfiable: p -> B (p - O) is the inverse of C06's point
+   map for every orthogonal [O; B]; translations are orthogonal and composing with the
+   element translation keeps the matrix, so every transformation develop_lattice produces
+   from an orthogonal fill transformation / TRCL qualifies *)
+Theorem C06_link_inverse_satisfiable :
+  (forall t : list R, orthogonal12 t ->
+     (forall p, apply_tr t (inv_orth t p) = p) /\ (forall p, inv_orth t (apply_tr t p) = p)) /\
+  (forall t : @vec R, orthogonal12 (translation_of t)) /\
+  (forall (t1 : list R) (t : @vec R) c, orthogonal12 t1 ->
+     compose_transform RS t1 (translation_of t) = Ok c -> orthogonal12 c).
+Proof.
+  split; [exact inv_orth_inverse|]. split; [exact translation_orthogonal|exact compose_translation_orthogonal].
+Qed.
+Print Assumptions C06_link_inverse_satisfiable.
+
 (* ---- FILL arrays on the cell card (ParseMCNPCell.parse_fill_kw) -----------------
    tokens in reading order after "(", ")" and "=" have become blanks.
    spells_int t u: t is a spelling of the integer u; param_token t: t starts
@@ -449,6 +531,40 @@ Proof.
 Qed.
 Print Assumptions C06_array_entry_transformation_refuted.
 
+(* EXACTLY which FILL-array texts are affected by finding array_entry_transformation.
+   A FILL array as written = ranges, then one entry per element: a universe number
+   optionally followed by a transformation in parentheses (MCNP: it belongs to that
+   entry).  The code sees the flattened tokens.  mcnp_equivalent k us es: the code
+   kept the universes us, and every entry's own transformation equals the single
+   transformation the code keeps for the whole array.  The text is read as MCNP reads
+   it IF AND ONLY IF no entry carries a transformation or the array has one element;
+   every other text (a transformation on any entry of an array of two or more
+   elements) is misread - silently when the flattened tokens still parse. *)
+Theorem C06_fill_array_read_as_mcnp :
+  forall (first : string) (more : list string) (bs : bounds) (es : list (string * list string))
+         (us : list Z) (tail : list string),
+  Forall2 spells_range (first :: more) bs -> wf_bounds bs ->
+  Forall2 spells_int (map fst es) us -> Z.of_nat (List.length us) = size bs ->
+  Forall (fun e => Forall tr_token (snd e)) es -> keyword_or_end tail ->
+  ((exists k, parse_fill_kw first (more ++ flatten_entries es ++ tail)%list = Ok k /\
+              mcnp_equivalent k us es)
+   <-> ((forall e, In e es -> snd e = []) \/ List.length es = 1%nat)).
+Proof. exact fill_array_read_as_mcnp. Qed.
+Print Assumptions C06_fill_array_read_as_mcnp.
+
+(* whatever the grouping by parentheses, what the code keeps is: the first
+   size(ranges) tokens as universes and ALL the other numeric tokens as one
+   transformation *)
+Theorem C06_parse_fill_kw_flat :
+  forall (first : string) (more : list string) (bs : bounds) (toks tail : list string) k,
+  Forall2 spells_range (first :: more) bs -> wf_bounds bs ->
+  Forall (fun t => ends_plain t /\ is_num_start t = true /\ has_colon t = false) toks ->
+  (size bs <= Z.of_nat (List.length toks))%Z -> keyword_or_end tail ->
+  parse_fill_kw first (more ++ toks ++ tail)%list = Ok k ->
+  fk_params k = skipn (Z.to_nat (size bs)) toks /\ fk_rest k = tail /\ fk_bounds k = Some bs.
+Proof. exact parse_fill_kw_flat. Qed.
+Print Assumptions C06_parse_fill_kw_flat.
+
 (* ---- non-vacuity ------------------------------------------------------------ *)
 (* a skew 2-D unit cell: planes x = +-1 (far plane first) and x + y = +-1 (near
    plane first, normal of the first one pointing into the cell) *)
@@ -490,4 +606,20 @@ Proof.
   repeat split.
   - exists "-03"%string, "+1"%string. repeat split; reflexivity.
   - exists "0"%string, "0"%string. repeat split; reflexivity.
+Qed.
+
+(* the witness of the finding satisfies the hypotheses of C06_fill_array_read_as_mcnp:
+   three entries, the last one with (0 1 0) *)
+Example C06_example_entry_tr :
+  let es := [("5", []); ("5", []); ("5", ["0"; "1"; "0"])]%string in
+  Forall2 spells_int (map fst es) [5; 5; 5]%Z /\
+  Forall (fun e => Forall tr_token (snd e)) es /\
+  flatten_entries es = ["5"; "5"; "5"; "0"; "1"; "0"]%string /\
+  ~ ((forall e, In e es -> snd e = []) \/ List.length es = 1%nat).
+Proof.
+  cbv zeta. split; [repeat constructor|]. split.
+  - repeat constructor; try reflexivity; (eexists; split; [reflexivity|left; reflexivity]).
+  - split; [reflexivity|]. intros [H|H]; [|discriminate H].
+    specialize (H ("5"%string, ["0"; "1"; "0"]%string)). cbn in H.
+    assert (X : ["0"; "1"; "0"]%string = []) by (apply H; tauto). discriminate X.
 Qed.
